@@ -201,8 +201,8 @@ struct TransitionT final
 	bool
 	operator == (const TransitionT& other)						  const noexcept	{
 		return TransitionBase::operator == (other) &&
-			   (payloadSet ==  other.payloadSet);
-		//	  (!payloadSet && !other.payloadSet || payload == other.payload);
+			   (payloadSet ==  other.payloadSet) &&
+			   (!payloadSet || memcmp(storage, other.storage, sizeof(Storage)) == 0);
 	}
 
 	// - - - - - - - - - - - - - - - - - - - - - - - - - - - - - - - - - - -
@@ -211,8 +211,8 @@ struct TransitionT final
 	bool
 	operator != (const TransitionT& other)						  const noexcept	{
 		return TransitionBase::operator != (other) ||
-			   (payloadSet != other.payloadSet);
-		//	   (payloadSet |= other.payloadSet || payload != other.payload);
+			   (payloadSet != other.payloadSet) ||
+			   (payloadSet && memcmp(storage, other.storage, sizeof(Storage)) != 0);
 	}
 
 	// - - - - - - - - - - - - - - - - - - - - - - - - - - - - - - - - - - -
